@@ -845,6 +845,25 @@ Section PT.
   Qed.
 
 
+  (** conversely, the only way to a Fault is a float literal the oracle rejects *)
+  Lemma good_dec ts : Forall good ts \/ exists s, In (TFloatLit s) ts /\ pf s = None.
+  Proof.
+    induction ts as [|t ts [IH|(s & Hin & Hs)]].
+    - left; constructor.
+    - destruct t as [s|s|s|s|k]; try (left; constructor; [exact I|assumption]).
+      destruct (pf s) eqn:E.
+      + left; constructor; [cbn; congruence|assumption].
+      + right; exists s; split; [left; reflexivity|assumption].
+    - right; exists s; split; [right; assumption|assumption].
+  Qed.
+
+  Theorem parse_fault_only_float :
+    forall ts x, parse_tokens pf ts = Fault x -> exists s, In (TFloatLit s) ts /\ pf s = None.
+  Proof.
+    intros ts x H. destruct (good_dec ts) as [Hg|Hex]; [|assumption].
+    exfalso. exact (program_nofault _ ts Hg x H).
+  Qed.
+
 End PT.
 
 (** * Part 3: the lexer *)
@@ -949,4 +968,338 @@ Section LexTotal.
   Lemma next_token_nil f pos : next_token u f [] pos = None.
   Proof. destruct f; reflexivity. Qed.
 
+  Definition starts_slash (r : text) : bool :=
+    match r with x :: _ => (x =? 47)%N | [] => false end.
+
+  Lemma slash_match {A} (r : text) (k1 k2 : A) :
+    match r with 47%N :: _ => k1 | _ => k2 end = if starts_slash r then k1 else k2.
+  Proof.
+    destruct r as [|x r']; [reflexivity|]. cbn [starts_slash].
+    destruct (N.eqb_spec x 47) as [->|Hne]; [reflexivity|].
+    destruct x as [|q]; [reflexivity|].
+    repeat match goal with
+           | |- context [match ?q with _ => _ end] => is_var q; destruct q; try reflexivity
+           end.
+    congruence.
+  Qed.
+
+  (* [rest] is what remains of [s] after a non-empty prefix, whose UTF-8 length moved the offset *)
+  Definition consumed (s : text) (pos : Z) (rest : text) (pos' : Z) : Prop :=
+    exists pre, s = pre ++ rest /\ pre <> [] /\ pos' = pos + utf8_len pre.
+
+  Lemma consumed_intro pre rest pos pos' :
+    pre <> [] -> pos' = pos + utf8_len pre -> consumed (pre ++ rest) pos rest pos'.
+  Proof. intros; exists pre; auto. Qed.
+
+  Lemma consumed_app pre0 s pos rest pos' :
+    consumed s (pos + utf8_len pre0) rest pos' -> consumed (pre0 ++ s) pos rest pos'.
+  Proof.
+    intros (pre & -> & Hne & ->). exists (pre0 ++ pre). rewrite app_assoc, utf8_len_app.
+    repeat split; [|lia]. destruct pre0; cbn; [assumption|discriminate].
+  Qed.
+
+  Ltac utf8 :=
+    repeat first [ rewrite utf8_len_cons | rewrite utf8_len_app | rewrite utf8_len_nil ]; lia.
+
+  Lemma nt_body_spec rec c r pos t rest pos' :
+    (forall s' p t rest pos', (length s' <= length r)%nat ->
+        rec s' p = Some (t, rest, pos') -> consumed s' p rest pos') ->
+    nt_body rec c r pos = Some (t, rest, pos') -> consumed (c :: r) pos rest pos'.
+  Proof.
+    intros Hrec. unfold nt_body. cbv zeta.
+    destruct (ident_start u c).
+    { destruct (span (ident_char u) r) as [a b] eqn:E. apply span_app in E. subst r.
+      intros H; inversion H; subst. apply (consumed_intro (c :: a)); [discriminate|utf8]. }
+    destruct (is_digit c).
+    { destruct (span_number false r) as [[a b] d] eqn:E. apply span_number_app in E. subst r.
+      intros H; inversion H; subst. apply (consumed_intro (c :: a)); [discriminate|utf8]. }
+    destruct (c =? 34)%N.
+    { destruct (span_string false r) as [a b] eqn:E. apply span_string_app in E. subst r.
+      destruct b as [|q b]; intros H; inversion H; subst.
+      - apply (consumed_intro (c :: a)); [discriminate|utf8].
+      - replace (c :: a ++ q :: rest) with ((c :: a ++ [q]) ++ rest)
+          by (cbn; rewrite <- app_assoc; reflexivity).
+        apply consumed_intro; [discriminate|utf8]. }
+    destruct (is_ws c).
+    { intros H. apply Hrec in H; [|lia]. apply (consumed_app [c]). revert H. rewrite utf8_len_cons, utf8_len_nil.
+      replace (pos + (utf8_len1 c + 0)) with (pos + utf8_len1 c) by lia. auto. }
+    destruct (c =? 47)%N.
+    { rewrite slash_match. destruct (starts_slash r).
+      - destruct (span _ r) as [a b] eqn:E. apply span_app in E. subst r.
+        intros H. apply Hrec in H; [|rewrite app_length; lia].
+        apply (consumed_app (c :: a)). revert H. rewrite utf8_len_cons.
+        replace (pos + (utf8_len1 c + utf8_len a)) with (pos + utf8_len1 c + utf8_len a) by lia. auto.
+      - intros H; inversion H; subst. apply (consumed_intro [c]); [discriminate|utf8]. }
+    destruct (find_double c double_tokens) as [[[second t0] els]|].
+    { destruct (if match r with x :: _ => (x =? second)%N | [] => false end then Some t0 else els) as [k|].
+      - destruct (is_two_char k).
+        + destruct r as [|x r']; intros H; inversion H; subst.
+          * apply (consumed_intro [c]); [discriminate|utf8].
+          * apply (consumed_intro [c; x]); [discriminate|utf8].
+        + intros H; inversion H; subst. apply (consumed_intro [c]); [discriminate|utf8].
+      - intros H; inversion H; subst. apply (consumed_intro [c]); [discriminate|utf8]. }
+    destruct (assoc N.eqb c single_tokens); intros H; inversion H; subst;
+      apply (consumed_intro [c]); (discriminate || utf8).
+  Qed.
+
+  Theorem next_token_consumes fuel : forall s pos t rest pos',
+    next_token u fuel s pos = Some (t, rest, pos') -> consumed s pos rest pos'.
+  Proof.
+    induction fuel as [|f IH]; intros s pos t rest pos' H; [discriminate|].
+    destruct s as [|c r]; [discriminate|].
+    rewrite next_token_S in H. eapply nt_body_spec; eauto.
+  Qed.
+
+  Corollary next_token_shrinks fuel s pos t rest pos' :
+    next_token u fuel s pos = Some (t, rest, pos') -> (length rest < length s)%nat.
+  Proof.
+    intros H. apply next_token_consumes in H. destruct H as (pre & -> & Hne & _).
+    rewrite app_length. destruct pre; [congruence|cbn; lia].
+  Qed.
+
+  Corollary next_token_offset fuel s pos t rest pos' :
+    next_token u fuel s pos = Some (t, rest, pos') ->
+    pos < pos' /\ pos' + utf8_len rest = pos + utf8_len s.
+  Proof.
+    intros H. apply next_token_consumes in H. destruct H as (pre & -> & Hne & ->).
+    rewrite utf8_len_app. split; [|lia]. destruct pre as [|c pre]; [congruence|].
+    rewrite utf8_len_cons. pose proof (utf8_len1_pos c). pose proof (utf8_len_nonneg pre). lia.
+  Qed.
+
+  (** the fuel of next_token is irrelevant once it exceeds the length of the input *)
+  Lemma nt_body_ext rec1 rec2 c r pos :
+    (forall s' p, (length s' <= length r)%nat -> rec1 s' p = rec2 s' p) ->
+    nt_body rec1 c r pos = nt_body rec2 c r pos.
+  Proof.
+    intros Hrec. unfold nt_body. cbv zeta.
+    destruct (ident_start u c); [reflexivity|].
+    destruct (is_digit c); [reflexivity|].
+    destruct (c =? 34)%N; [reflexivity|].
+    destruct (is_ws c); [apply Hrec; lia|].
+    destruct (c =? 47)%N; [|reflexivity].
+    rewrite !slash_match. destruct (starts_slash r); [|reflexivity].
+    destruct (span _ r) as [a b] eqn:E. apply span_app in E. subst r.
+    apply Hrec. rewrite app_length. lia.
+  Qed.
+
+  Theorem next_token_fuel f1 : forall f2 s pos,
+    (length s < f1)%nat -> (length s < f2)%nat -> next_token u f1 s pos = next_token u f2 s pos.
+  Proof.
+    induction f1 as [|f1 IH]; intros f2 s pos H1 H2; [lia|].
+    destruct f2 as [|f2]; [lia|].
+    destruct s as [|c r]; [reflexivity|]. cbn [length] in *.
+    rewrite !next_token_S. apply nt_body_ext. intros s' p Hs'. apply IH; lia.
+  Qed.
+
+  (** texts that consist of white space and comments only, as the tokenizer classifies them *)
+  Inductive blank : text -> Prop :=
+  | blank_nil : blank []
+  | blank_ws c r :
+      ident_start u c = false -> is_digit c = false -> (c =? 34)%N = false -> is_ws c = true ->
+      blank r -> blank (c :: r)
+  | blank_comment r a rest :        (* "//", the line up to (not including) the next line feed *)
+      span (fun x => negb (x =? 10)%N) r = (a, rest) -> blank rest -> blank (47%N :: 47%N :: r).
+
+  Lemma nt_body_none rec c r pos :
+    (forall s' p, (length s' <= length r)%nat -> rec s' p = None -> blank s') ->
+    nt_body rec c r pos = None -> blank (c :: r).
+  Proof.
+    intros Hrec. unfold nt_body. cbv zeta.
+    destruct (ident_start u c) eqn:E1.
+    { destruct (span (ident_char u) r); discriminate. }
+    destruct (is_digit c) eqn:E2.
+    { destruct (span_number false r) as [[a b] d]; discriminate. }
+    destruct (c =? 34)%N eqn:E3.
+    { destruct (span_string false r) as [a [|q b]]; discriminate. }
+    destruct (is_ws c) eqn:E4.
+    { intros H. apply blank_ws; auto. eapply Hrec; eauto. }
+    destruct (c =? 47)%N eqn:E5.
+    { apply N.eqb_eq in E5. subst c. rewrite slash_match.
+      destruct r as [|x r']; cbn [starts_slash]; [discriminate|].
+      destruct (N.eqb_spec x 47) as [->|Hne]; [|discriminate].
+      cbn [span]. change (negb (47 =? 10)%N) with true. cbv iota.
+      destruct (span _ r') as [a b] eqn:E. intros H.
+      apply blank_comment with a b; auto. eapply Hrec; eauto.
+      apply span_app in E. subst r'. cbn [length]. rewrite app_length. lia. }
+    destruct (find_double c double_tokens) as [[[second t0] els]|].
+    { destruct (if match r with x :: _ => (x =? second)%N | [] => false end then Some t0 else els) as [k|];
+        [|discriminate].
+      destruct (is_two_char k); [destruct r|]; discriminate. }
+    destruct (assoc N.eqb c single_tokens); discriminate.
+  Qed.
+
+  Theorem next_token_none fuel : forall s pos,
+    (length s < fuel)%nat -> next_token u fuel s pos = None -> blank s.
+  Proof.
+    induction fuel as [|f IH]; intros s pos Hf H; [lia|].
+    destruct s as [|c r]; [constructor|]. cbn [length] in Hf.
+    rewrite next_token_S in H. eapply nt_body_none; eauto.
+    intros s' p Hs'. apply IH. lia.
+  Qed.
+
+  Theorem blank_next_token_none s : blank s ->
+    forall fuel pos, (length s < fuel)%nat -> next_token u fuel s pos = None.
+  Proof.
+    induction 1 as [|c r E1 E2 E3 E4 Hb IH|r a rest E Hb IH]; intros fuel pos Hf.
+    - apply next_token_nil.
+    - destruct fuel as [|f]; [lia|]. cbn [length] in Hf. rewrite next_token_S. unfold nt_body. cbv zeta.
+      rewrite E1, E2, E3, E4. apply IH. lia.
+    - destruct fuel as [|f]; [lia|]. cbn [length] in Hf. rewrite next_token_S. unfold nt_body. cbv zeta.
+      change (ident_start u 47%N) with false. change (is_digit 47%N) with false.
+      change (47 =? 34)%N with false. change (is_ws 47%N) with false. change (47 =? 47)%N with true.
+      cbv iota. cbn [span]. change (negb (47 =? 10)%N) with true. cbv iota. rewrite E.
+      apply IH. apply span_app in E. subst r. rewrite app_length in Hf. lia.
+  Qed.
+
+  (** (a) as one statement about the fuel the lexer actually uses *)
+  Theorem next_token_total s pos :
+    match next_token u (S (length s)) s pos with
+    | None => blank s
+    | Some (t, rest, pos') =>
+        (length rest < length s)%nat /\ pos < pos' /\ pos' + utf8_len rest = pos + utf8_len s
+    end.
+  Proof.
+    destruct (next_token u (S (length s)) s pos) as [[[t rest] pos']|] eqn:E.
+    - split; [eapply next_token_shrinks; eauto | eapply next_token_offset; eauto].
+    - eapply next_token_none; [|exact E]; lia.
+  Qed.
+
+  (** (b) a complete tokenization: steps of next_token until only white space and comments remain *)
+  Inductive tokenizes : text -> Z -> list (token * Z) -> Prop :=
+  | tk_done s pos : blank s -> tokenizes s pos []
+  | tk_step s pos t rest pos' l :
+      next_token u (S (length s)) s pos = Some (t, rest, pos') ->
+      tokenizes rest pos' l -> tokenizes s pos ((t, pos') :: l).
+
+  Lemma lex_fuel_tokenizes fuel : forall s pos,
+    (length s < fuel)%nat -> tokenizes s pos (lex_fuel u fuel s pos).
+  Proof.
+    induction fuel as [|f IH]; intros s pos Hf; [lia|]. cbn [lex_fuel].
+    destruct (next_token u (S (length s)) s pos) as [[[t rest] pos']|] eqn:E.
+    - eapply tk_step; eauto. apply IH. apply next_token_shrinks in E. lia.
+    - apply tk_done. eapply next_token_none; [|exact E]; lia.
+  Qed.
+
+  Lemma tokenizes_fun s pos l1 : tokenizes s pos l1 -> forall l2, tokenizes s pos l2 -> l1 = l2.
+  Proof.
+    induction 1 as [s pos Hb|s pos t rest pos' l E Ht IH]; intros l2 H2; inversion H2; subst.
+    - reflexivity.
+    - rewrite blank_next_token_none in H by (auto; lia). discriminate.
+    - rewrite blank_next_token_none in E by (auto; lia). discriminate.
+    - rewrite E in H. inversion H; subst. f_equal. auto.
+  Qed.
+
+  (** the lexer stops only because next_token found nothing but white space and comments *)
+  Theorem lex_complete s : tokenizes s 0 (lex u s).
+  Proof. apply lex_fuel_tokenizes. lia. Qed.
+
+  (** more fuel would not produce more tokens *)
+  Theorem lex_fuel_irrelevant fuel s pos :
+    (length s < fuel)%nat -> lex_fuel u fuel s pos = lex_fuel u (S (length s)) s pos.
+  Proof.
+    intros Hf. eapply tokenizes_fun; apply lex_fuel_tokenizes; lia.
+  Qed.
+
+  (** (c) byte offsets *)
+  Lemma tokenizes_offsets s pos l : tokenizes s pos l ->
+    StronglySorted Z.lt (pos :: map snd l) /\ Forall (fun p => p <= pos + utf8_len s) (map snd l).
+  Proof.
+    induction 1 as [s pos Hb|s pos t rest pos' l E Ht [IH1 IH2]]; cbn [map snd].
+    - split; repeat constructor.
+    - apply next_token_offset in E. destruct E as [Hlt Hsum].
+      assert (Hall : Forall (Z.lt pos) (pos' :: map snd l)).
+      { constructor; [assumption|]. inversion IH1 as [|? ? _ Hfa]; subst.
+        eapply Forall_impl; [|exact Hfa]. cbv beta. intros; lia. }
+      split.
+      + constructor; assumption.
+      + constructor.
+        * pose proof (utf8_len_nonneg rest). lia.
+        * eapply Forall_impl; [|exact IH2]. cbv beta. intros; lia.
+  Qed.
+
+  Theorem lex_offsets_increasing s : StronglySorted Z.lt (0 :: map snd (lex u s)).
+  Proof. apply (tokenizes_offsets s 0), lex_complete. Qed.
+
+  Theorem lex_offsets_bounded s : Forall (fun p => 0 < p <= utf8_len s) (map snd (lex u s)).
+  Proof.
+    destruct (tokenizes_offsets s 0 _ (lex_complete s)) as [H1 H2].
+    inversion H1 as [|? ? _ Hfa]; subst.
+    apply Forall_forall. intros p Hp.
+    rewrite Forall_forall in Hfa, H2. specialize (Hfa p Hp). specialize (H2 p Hp). cbv beta in *. lia.
+  Qed.
+
 End LexTotal.
+
+(** * Examples (non-vacuity) *)
+
+Module PTExamples.
+  Definition u0 : unicode := mkUnicode (fun _ => false) (fun _ => false).
+  Definition pf_none : text -> option float := fun _ => None.
+  Definition pf_some : text -> option float := fun _ => Some 1.5%float.
+  Local Open Scope nat_scope.
+  Local Open Scope string_scope.
+
+  (* the input on which the original Rust parameter loop did not advance *)
+  Example ex_functie_paren :
+    tokens u0 (str_cps "functie (") = [TFix KFunc; TFix KOpenParen]
+    /\ parse_tokens pf_none (tokens u0 (str_cps "functie (")) = Err ESyntaxError.
+  Proof. split; vm_compute; reflexivity. Qed.
+
+  Example ex_unclosed :
+    parse_tokens pf_none (tokens u0 (str_cps "f(1, [2, {")) = Err ESyntaxError.
+  Proof. vm_compute; reflexivity. Qed.
+
+  (* the hypothesis of parse_no_panic is satisfiable by an input with float literals, and the
+     parser answers Ok; with an oracle that rejects the literal the model panics, so the
+     hypothesis cannot be dropped *)
+  Example ex_float_ok :
+    let ts := tokens u0 (str_cps "stel x = 1.5; x = f(x, [2.5][0])") in
+    (forall s, In (TFloatLit s) ts -> pf_some s <> None)
+    /\ In (TFloatLit (str_cps "1.5")) ts
+    /\ exists b, parse_tokens pf_some ts = Ok b.
+  Proof.
+    cbv zeta. split; [intros; discriminate|]. split; [vm_compute; tauto|].
+    eexists. vm_compute. reflexivity.
+  Qed.
+
+  Example ex_float_fault :
+    parse_tokens pf_none (tokens u0 (str_cps "stel x = 1.5;")) = Fault FUnwrap.
+  Proof. vm_compute; reflexivity. Qed.
+
+  (* three units of fuel per token are necessary: n opening brackets need 3 * n + 3 *)
+  Example ex_tight_10 :
+    let ts := repeat (TFix KOpenBracket) 10 in
+    parse_program pf_none 32 ts = OutOfFuel /\ parse_program pf_none 33 ts = Err ESyntaxError.
+  Proof. split; vm_compute; reflexivity. Qed.
+  Example ex_tight_40 :
+    let ts := repeat (TFix KOpenBracket) 40 in
+    parse_program pf_none 122 ts = OutOfFuel /\ parse_program pf_none 123 ts = Err ESyntaxError
+    /\ fuel_for ts = 168.
+  Proof. repeat split; vm_compute; reflexivity. Qed.
+
+  (* the lexer: a comment, white space, a two-character operator, a float; offsets in bytes *)
+  Example ex_lex :
+    lex u0 (str_cps "a // c" ++ [10%N] ++ str_cps " b1 >= 2.5  ")%list
+    = [(TIdent (str_cps "a"), 1%Z); (TIdent (str_cps "b1"), 10%Z); (TFix KGte, 13%Z);
+       (TFloatLit (str_cps "2.5"), 17%Z)].
+  Proof. vm_compute; reflexivity. Qed.
+
+  Example ex_blank : blank u0 (str_cps " // x" ++ [10%N; 9%N])%list.
+  Proof.
+    apply (next_token_none u0 (S (length (str_cps " // x" ++ [10%N; 9%N])%list)) _ 0%Z); [lia|].
+    vm_compute; reflexivity.
+  Qed.
+End PTExamples.
+
+Print Assumptions parse_terminates.
+Print Assumptions parse_terminates_bound.
+Print Assumptions parse_no_panic.
+Print Assumptions parse_total.
+Print Assumptions parse_fault_only_float.
+Print Assumptions next_token_total.
+Print Assumptions next_token_fuel.
+Print Assumptions blank_next_token_none.
+Print Assumptions lex_complete.
+Print Assumptions lex_fuel_irrelevant.
+Print Assumptions lex_offsets_increasing.
+Print Assumptions lex_offsets_bounded.
